@@ -165,6 +165,24 @@ def run(R, tier, seed, driver_ok):
             flat = dict(pre_params, preprocessor=np.arange(float(len(X))))
             R.case(('c06', name, 'fit', 'preprocessor-without-feature-axis'), True, branch='preprocessor-shape')
             call(R, name, zoo.CLASSES[name](**flat).fit, tuple(ia_), f'{name}.fit/preprocessor-without-feature-axis', 'fit(indicator tuples, 1-D array as preprocessor)', {'est': name, 'method': 'fit', 'malformation': 'preprocessor-without-feature-axis'})
+        if name.endswith('_Supervised') and name not in ('RCA_Supervised',):
+            # a non-finite value in a row that few or no constraints use: an unlabeled row, and few constraints on many rows
+            base_p = {k: v for k, v in est.get_params().items() if not (isinstance(v, str) and v == 'deprecated')}
+            for tag, mk in [('nan-in-unlabeled-row', np.nan), ('inf-in-unlabeled-row', np.inf), ('nan-few-constraints', np.nan)]:
+                Xb = np.vstack([X, X + 0.37]); yb = np.concatenate([y, y])
+                pp = dict(base_p)
+                if 'unlabeled' in tag:
+                    yb = yb.copy(); yb[-3:] = -1
+                    Xb[len(Xb) - 2, int(rng.randint(d))] = mk
+                else:
+                    if 'n_constraints' in pp:
+                        pp['n_constraints'] = 3
+                    Xb[int(rng.randint(len(Xb))), int(rng.randint(d))] = mk
+                for sd_ in range(3):
+                    if 'random_state' in pp:
+                        pp['random_state'] = sd_
+                    R.case(('c06', name, 'fit', tag, sd_), True, branch='fit-nonfinite-unused-row')
+                    call(R, name, zoo.CLASSES[name](**pp).fit, (Xb, yb), f'{name}.fit/{tag}', f'fit({tag}, seed {sd_})', {'est': name, 'method': 'fit', 'malformation': tag})
         if name == 'LSML':
             for tag, w_ in [('weights-short', np.ones(len(args[0]) - 1)), ('weights-long', np.ones(len(args[0]) + 2)), ('weights-2d', np.ones((len(args[0]), 1)))]:
                 R.case(('c06', name, 'fit', tag), True, branch='labels')
